@@ -82,6 +82,8 @@ pub trait ScopeOps {
     fn with_guard(&mut self, f: &mut dyn FnMut(&mut dyn GuardOps));
     fn with_claim(&self, f: &mut dyn FnMut(&mut dyn ScopeOps));
     fn with_aligned(&mut self, n: usize, scoped: bool, f: &mut dyn FnMut(&mut dyn ScopeOps));
+    /// borrow_mut_with_settings to a higher minimum alignment n
+    fn with_bmws(&mut self, n: usize, f: &mut dyn FnMut(&mut dyn ScopeOps));
     /// second claim on a claimed handle: must panic; returns the panic message if it did
     fn claim_again(&self) -> Option<String>;
     /// creates an exclusive-borrow collection of elements of layout (esz, eal) with initial capacity c0
@@ -92,6 +94,7 @@ pub trait ScopeOps {
 pub trait PrepOps {
     /// push one element whose bytes are all `tag`
     fn push(&mut self, tag: u8) -> Result<(), ()>;
+    fn reserve(&mut self, additional: usize) -> Result<(), ()>;
     fn len(&self) -> usize;
     fn cap(&self) -> usize;
     fn snapshot(&self) -> Snap;
@@ -505,6 +508,19 @@ where
 {
     impl_scope_ops!();
 
+    fn with_bmws(&mut self, n: usize, f: &mut dyn FnMut(&mut dyn ScopeOps)) {
+        // `MA` is a const generic: the transmutes below are the identity in the branch that is taken
+        unsafe {
+            match MA {
+                1 => bmws_1::<A, UP, GA, DE, SH, MCS>(std::mem::transmute(self), n, f),
+                2 => bmws_2::<A, UP, GA, DE, SH, MCS>(std::mem::transmute(self), n, f),
+                4 => bmws_4::<A, UP, GA, DE, SH, MCS>(std::mem::transmute(self), n, f),
+                8 => bmws_8::<A, UP, GA, DE, SH, MCS>(std::mem::transmute(self), n, f),
+                _ => bmws_16::<A, UP, GA, DE, SH, MCS>(std::mem::transmute(self), n, f),
+            }
+        }
+    }
+
     fn scoped(&mut self, f: &mut dyn FnMut(&mut dyn ScopeOps)) {
         BumpAllocator::scoped(self, |inner| f(inner));
     }
@@ -568,10 +584,7 @@ where
         match (esz, eal) {
             (1, 1) => mk!(u8),
             (3, 1) => mk!([u8; 3]),
-            (2, 2) => mk!(u16),
-            (4, 4) => mk!(u32),
             (8, 8) => mk!(u64),
-            (24, 8) => mk!([u64; 3]),
             (32, 32) => mk!(A32),
             _ => panic!("no element type for layout ({esz}, {eal})"),
         }
@@ -586,6 +599,9 @@ where
 {
     fn push(&mut self, tag: u8) -> Result<(), ()> {
         self.try_push(T::make(tag)).map_err(|_| ())
+    }
+    fn reserve(&mut self, additional: usize) -> Result<(), ()> {
+        self.try_reserve(additional).map_err(|_| ())
     }
     fn len(&self) -> usize {
         MutBumpVec::len(self)
@@ -615,6 +631,9 @@ where
 {
     fn push(&mut self, tag: u8) -> Result<(), ()> {
         self.try_push(T::make(tag)).map_err(|_| ())
+    }
+    fn reserve(&mut self, additional: usize) -> Result<(), ()> {
+        self.try_reserve(additional).map_err(|_| ())
     }
     fn len(&self) -> usize {
         MutBumpVecRev::len(self)
@@ -689,6 +708,14 @@ impl<'s, B: ScopeOps + BumpAllocatorCore> PrepOps for DynPrep<'s, B> {
         self.tags.push(tag);
         Ok(())
     }
+    fn reserve(&mut self, additional: usize) -> Result<(), ()> {
+        if self.cap - self.len < additional {
+            let mnz = if self.esz == 1 { 8 } else if self.esz <= 1024 { 4 } else { 1 };
+            let ncap = (2 * self.cap).max(self.len + additional).max(mnz);
+            self.grow_to(ncap)?;
+        }
+        Ok(())
+    }
     fn len(&self) -> usize {
         self.len
     }
@@ -759,18 +786,44 @@ where
     }
 }
 
+/// `borrow_mut_with_settings` may only be instantiated for a minimum alignment >= the current one (a lower one is a
+/// compile-time error): one function per concrete MIN_ALIGN, selected at run time by `with_bmws`.
+macro_rules! def_bmws {
+    ($name:ident, $ma:literal => $($n:literal),*) => {
+        fn $name<'a, A, const UP: bool, const GA: bool, const DE: bool, const SH: bool, const MCS: usize>(
+            s: &mut BumpScope<'a, A, BumpSettings<$ma, UP, GA, true, DE, SH, MCS>>,
+            n: usize,
+            f: &mut dyn FnMut(&mut dyn ScopeOps),
+        ) where
+            A: Flavour + BaseAllocator<Bool<GA>>,
+        {
+            match n {
+                $($n => f(s.borrow_mut_with_settings::<BumpSettings<$n, UP, GA, true, DE, SH, MCS>>()),)*
+                _ => panic!("borrow_mut_with_settings cannot lower the minimum alignment"),
+            }
+        }
+    };
+}
+def_bmws!(bmws_1, 1 => 1, 2, 4, 8, 16);
+def_bmws!(bmws_2, 2 => 2, 4, 8, 16);
+def_bmws!(bmws_4, 4 => 4, 8, 16);
+def_bmws!(bmws_8, 8 => 8, 16);
+def_bmws!(bmws_16, 16 => 16);
+
 /// Handle-level operations that only exist on `Bump`.
 pub trait BumpOps {
     /// the handle operations are carried by: the `Bump` itself (variant "bump") or its `as_mut_scope()`
     fn as_scope_ops(&mut self, through_bump: bool) -> &mut dyn ScopeOps;
     fn reset(&mut self);
     fn reset_to_start(&mut self);
+    /// Bump::with_settings::<NewS>() with NewS = (ma, ga); Err(message) if the conversion panicked (the Bump is gone then)
+    fn with_settings(self: Box<Self>, ma: usize, ga: bool) -> Result<Box<dyn BumpOps>, String>;
 }
 
 impl<A, const MA: usize, const UP: bool, const GA: bool, const DE: bool, const SH: bool, const MCS: usize> BumpOps
     for Bump<A, BumpSettings<MA, UP, GA, true, DE, SH, MCS>>
 where
-    A: Flavour + BaseAllocator<Bool<GA>>,
+    A: Flavour + BaseAllocator<Bool<GA>> + BaseAllocator<Bool<true>> + BaseAllocator<Bool<false>>,
     MinimumAlignment<MA>: SupportedMinimumAlignment,
 {
     fn as_scope_ops(&mut self, through_bump: bool) -> &mut dyn ScopeOps {
@@ -781,6 +834,46 @@ where
     }
     fn reset_to_start(&mut self) {
         Bump::reset_to_start(self);
+    }
+    fn with_settings(self: Box<Self>, ma: usize, ga: bool) -> Result<Box<dyn BumpOps>, String> {
+        let this = *self;
+        macro_rules! conv {
+            ($n:literal, $g:literal) => {{
+                let r = std::panic::catch_unwind(std::panic::AssertUnwindSafe(move || {
+                    this.with_settings::<BumpSettings<$n, UP, $g, true, DE, SH, MCS>>()
+                }));
+                match r {
+                    Ok(b) => Ok(Box::new(b) as Box<dyn BumpOps>),
+                    Err(e) => Err(crate::interp::panic_msg(&e)),
+                }
+            }};
+        }
+        macro_rules! conv_same {
+            ($n:literal) => {{
+                let r = std::panic::catch_unwind(std::panic::AssertUnwindSafe(move || {
+                    this.with_settings::<BumpSettings<$n, UP, GA, true, DE, SH, MCS>>()
+                }));
+                match r {
+                    Ok(b) => Ok(Box::new(b) as Box<dyn BumpOps>),
+                    Err(e) => Err(crate::interp::panic_msg(&e)),
+                }
+            }};
+        }
+        // GUARANTEED_ALLOCATED stays as it is or is upgraded (false -> true: the conversion that can panic); the
+        // downgrade is always accepted and is not exercised, which keeps the set of instantiated settings small
+        match (ma, ga, GA) {
+            (1, true, _) => conv!(1, true),
+            (2, true, _) => conv!(2, true),
+            (4, true, _) => conv!(4, true),
+            (8, true, _) => conv!(8, true),
+            (16, true, _) => conv!(16, true),
+            (1, false, false) => conv_same!(1),
+            (2, false, false) => conv_same!(2),
+            (4, false, false) => conv_same!(4),
+            (8, false, false) => conv_same!(8),
+            (16, false, false) => conv_same!(16),
+            _ => panic!("unsupported settings conversion"),
+        }
     }
 }
 
@@ -828,5 +921,8 @@ where
     }
     fn prep<'s>(&'s mut self, esz: usize, eal: usize, rev: bool, via: &str, c0: usize) -> Result<Box<dyn PrepOps + 's>, ()> {
         self.as_mut_scope().prep(esz, eal, rev, via, c0)
+    }
+    fn with_bmws(&mut self, n: usize, f: &mut dyn FnMut(&mut dyn ScopeOps)) {
+        self.as_mut_scope().with_bmws(n, f)
     }
 }
